@@ -219,7 +219,7 @@ def _sibling_job(args):
             s.replay([])
             u1, u2 = s.url(coll, existing + ext), s.url(coll, other + ext)
             r0 = s.req("PUT", u1, {"Content-Type": ct}, b1)
-            if dav.effective_status(r0) not in (201, 204):
+            if dav.effective_status(r0) not in (200, 201, 204):
                 continue
             g0 = s.req("GET", u1)
             stats["cases"] += 1
